@@ -191,7 +191,7 @@ class DiscreteEncoder:
         # dimensionality
         # then backprop rule for mul is just mul, so do that
         # then go through the estimator backwards; done
-        tmpbar = (np.broadcast_to(grad[:, None], self.tmpshape) * expanded_levels)
+        tmpbar = (np.broadcast_to(grad[..., None], self.tmpshape) * expanded_levels)
         return self.est.backprop(tmpbar)
 
     def discretize(self, x):
